@@ -15,6 +15,7 @@ package stream
 //@   requires#nowrap ctr(nonce) != MAXCTR                        [C14]
 //@   ensures#ctr ctr(nonce) == old(ctr(nonce)) + 1               [C02 C05 C06]
 //@   ensures#flag nonce[11] == old(nonce[11])                    [C02 C05 C06]
+//@   ensures#range (forall j in 0..12 :: 0 <= old(nonce[j]) && old(nonce[j]) <= 255) ==> (forall j in 0..12 :: 0 <= nonce[j] && nonce[j] <= 255)
 //@   modifies *nonce
 
 //@ func setLastChunkFlag
@@ -41,3 +42,95 @@ package stream
 //@   ensures#nil err != nil ==> w == nil
 //@   fresh w when err == nil
 //@   modifies nothing
+
+//@ const CS := 65536
+//@ const ECS := 65552
+//@ specfn nonceOf(Int, Int) Bytes
+//@ smt (assert (forall ((a (Array Int Int))) (! (=> (and (<= 0 (select a 0)) (<= (select a 0) 255) (<= 0 (select a 1)) (<= (select a 1) 255) (<= 0 (select a 2)) (<= (select a 2) 255) (<= 0 (select a 3)) (<= (select a 3) 255) (<= 0 (select a 4)) (<= (select a 4) 255) (<= 0 (select a 5)) (<= (select a 5) 255) (<= 0 (select a 6)) (<= (select a 6) 255) (<= 0 (select a 7)) (<= (select a 7) 255) (<= 0 (select a 8)) (<= (select a 8) 255) (<= 0 (select a 9)) (<= (select a 9) 255) (<= 0 (select a 10)) (<= (select a 10) 255) (<= 0 (select a 11)) (<= (select a 11) 255)) (= (b.of a 0 12) (nonceOf (+ (* (select a 0) 1208925819614629174706176) (* (select a 1) 4722366482869645213696) (* (select a 2) 18446744073709551616) (* (select a 3) 72057594037927936) (* (select a 4) 281474976710656) (* (select a 5) 1099511627776) (* (select a 6) 4294967296) (* (select a 7) 16777216) (* (select a 8) 65536) (* (select a 9) 256) (select a 10)) (select a 11)))) :pattern ((b.of a 0 12)))))
+
+//@ pred bytes12(n) := forall j in 0..12 :: 0 <= n[j] && n[j] <= 255
+//@ pred rinv(r) := len(r.unread) <= CS && (len(r.unread) > 0 ==> rg(r.unread) == rg(r.buf)) && bytes12(r.nonce) && (r.err == nil ==> r.nonce[11] == 0) && r.src != nil && r.a != nil
+
+//@ func (*Reader).readChunk(r) (last, err)
+//@   inline nonceIsZero, setLastChunkFlag
+//@   requires#clean len(r.unread) == 0                                                                       [C14]
+//@   requires#live rinv(r) && r.err == nil
+//@   requires#chunks ctr(r.nonce) < MAXCTR                                                                   [C14]
+//@   ensures#consumed 0 <= len(old(r.src.$rem)) - len(r.src.$rem) && len(old(r.src.$rem)) - len(r.src.$rem) <= ECS   [C12]
+//@   ensures#rem r.src.$rem == sub(old(r.src.$rem), len(old(r.src.$rem)) - len(r.src.$rem), len(old(r.src.$rem)))
+//@   ensures#errclean err != nil ==> len(r.unread) == 0 && !last                                             [C02 C13]
+//@   ensures#trunc len(old(r.src.$rem)) == 0 ==> err != nil                                                  [C02]
+//@   ensures#noeof err != io.EOF                                                                             [C02 C13]
+//@   ensures#shape err == nil ==> (len(old(r.src.$rem)) - len(r.src.$rem) == ECS || (len(old(r.src.$rem)) - len(r.src.$rem) < ECS && len(r.src.$rem) == 0)) && len(old(r.src.$rem)) - len(r.src.$rem) >= 16   [C02 C12]
+//@   ensures#short err == nil && len(old(r.src.$rem)) - len(r.src.$rem) < ECS ==> last                       [C02]
+//@   ensures#emptyfirst err == nil && len(old(r.src.$rem)) - len(r.src.$rem) == 16 ==> old(ctr(r.nonce)) == 0 && old(r.nonce[11]) == 0   [C02]
+//@   ensures#auth err == nil ==> openok(r.a.$key, nonceOf(old(ctr(r.nonce)), (last ? 1 : 0)), sub(old(r.src.$rem), 0, len(old(r.src.$rem)) - len(r.src.$rem)))   [C01 C02 C05]
+//@   ensures#plain err == nil ==> bytes(r.unread) == open(r.a.$key, nonceOf(old(ctr(r.nonce)), (last ? 1 : 0)), sub(old(r.src.$rem), 0, len(old(r.src.$rem)) - len(r.src.$rem)))   [C01 C02 C05]
+//@   ensures#notlast err == nil && !last ==> !openok(r.a.$key, nonceOf(old(ctr(r.nonce)), 1), sub(old(r.src.$rem), 0, ECS)) || openok(r.a.$key, nonceOf(old(ctr(r.nonce)), 0), sub(old(r.src.$rem), 0, ECS))   [C02]
+//@   ensures#nonce err == nil ==> ctr(r.nonce) == old(ctr(r.nonce)) + 1 && r.nonce[11] == (last ? 1 : 0) && bytes12(r.nonce)   [C02 C05 C06]
+//@   ensures#range bytes12(r.nonce)
+//@   ensures#frame r.err == old(r.err) && r.src == old(r.src) && r.a == old(r.a) && len(r.unread) <= CS && (err == nil ==> rg(r.unread) == rg(r.buf))
+//@   call Open#1 requires arg1 == outBuf && len(arg1) == 0 && bytes(arg2) == nonceOf(old(ctr(r.nonce)), (last ? 1 : 0)) && arg4 == nil   [C05]
+//@   modifies r.unread, r.buf, r.nonce, r.src.$rem
+
+//@ func (*Reader).Read(r, p) (n, err)
+//@   requires#inv rinv(r) && disjoint(p, r.buf) && disjoint(p, r.nonce)
+//@   requires#chunks ctr(r.nonce) < MAXCTR                                                                                   [C14]
+//@   ensures#inv rinv(r)
+//@   ensures#n 0 <= n && n <= len(p)                                                                                         [C12 C14]
+//@   ensures#sticky old(r.err) != nil && len(old(r.unread)) == 0 ==> n == 0 && err == old(r.err) && r.err == old(r.err) && r.src.$rem == old(r.src.$rem)   [C02 C13]
+//@   ensures#stored err != nil ==> r.err == err && n == 0 && len(r.unread) == 0                                             [C02 C13]
+//@   ensures#keeperr old(r.err) != nil ==> r.err == old(r.err)                                                               [C02 C13]
+//@   ensures#buffered len(old(r.unread)) > 0 ==> err == nil && n == min(len(p), len(old(r.unread))) && r.src.$rem == old(r.src.$rem) && r.err == old(r.err)   [C01 C02 C12]
+//@   ensures#bufdata len(old(r.unread)) > 0 ==> sub(bytes(p), 0, n) == sub(old(bytes(r.unread)), 0, n)                     [C01 C02 C12]
+//@   ensures#bufrest len(old(r.unread)) > 0 ==> bytes(r.unread) == sub(old(bytes(r.unread)), n, len(old(r.unread)))         [C01 C02 C12]
+//@   ensures#consume len(old(r.src.$rem)) - len(r.src.$rem) <= ECS + 1 && len(old(r.src.$rem)) >= len(r.src.$rem)         [C12]
+//@   ensures#eof (r.err == io.EOF && old(r.err) == nil) ==> len(r.src.$rem) == 0 && len(old(r.src.$rem)) <= ECS              [C02 C12]
+//@   ensures#noeofontrunc (old(r.err) == nil && len(old(r.unread)) == 0 && len(p) > 0 && len(old(r.src.$rem)) == 0) ==> err != nil && err != io.EOF   [C02 C13]
+//@   ensures#fresh (old(r.err) == nil && len(old(r.unread)) == 0 && len(p) > 0 && err == nil) ==> n <= len(p) && sub(bytes(p), 0, n) == sub(open(r.a.$key, nonceOf(old(ctr(r.nonce)), r.nonce[11]), sub(old(r.src.$rem), 0, min(ECS, len(old(r.src.$rem))))), 0, n)   [C01 C02 C12]
+//@   ensures#counter (old(r.err) == nil && len(old(r.unread)) == 0 && len(p) > 0 && err == nil) ==> ctr(r.nonce) == old(ctr(r.nonce)) + 1    [C02 C06]
+//@   ensures#final (old(r.err) == nil && r.err != nil && err == nil) ==> r.nonce[11] == 1                                  [C02]
+//@   modifies r.unread, r.buf, r.nonce, r.err, r.src.$rem, p[:]
+
+//@ pred winv(w) := rg(w.unwritten) == rg(w.buf) && off(w.unwritten) == 0 && len(w.unwritten) <= CS && cap(w.unwritten) == ECS && bytes12(w.nonce) && (w.err == nil ==> w.nonce[11] == 0) && w.dst != nil && w.a != nil
+
+//@ func (*Writer).flushChunk(w, last) (err)
+//@   inline setLastChunkFlag
+//@   requires#inv winv(w) && w.err == nil
+//@   requires#full last || len(w.unwritten) == CS                                                                    [C14]
+//@   requires#chunks ctr(w.nonce) < MAXCTR                                                                           [C14]
+//@   call Seal#1 requires len(arg1) == 0 && rg(arg1) == rg(w.buf) && off(arg1) == 0 && bytes(arg2) == nonceOf(old(ctr(w.nonce)), (last ? 1 : 0)) && same(arg3, old(w.unwritten)) && arg4 == nil   [C05 C06]
+//@   call Write#1 requires arg0 == w.dst                                                                             [C13]
+//@   ensures#out err == nil ==> w.dst.$out == cat(old(w.dst.$out), seal(w.a.$key, nonceOf(old(ctr(w.nonce)), (last ? 1 : 0)), old(bytes(w.unwritten))))   [C01 C05 C12 C13]
+//@   ensures#prefix exists k in 0..len(old(w.unwritten))+17 :: w.dst.$out == cat(old(w.dst.$out), sub(seal(w.a.$key, nonceOf(old(ctr(w.nonce)), (last ? 1 : 0)), old(bytes(w.unwritten))), 0, k))   [C13]
+//@   ensures#state len(w.unwritten) == 0 && ctr(w.nonce) == old(ctr(w.nonce)) + 1 && w.nonce[11] == (last ? 1 : 0)    [C02 C05 C06 C12]
+//@   ensures#inv rg(w.unwritten) == rg(w.buf) && off(w.unwritten) == 0 && cap(w.unwritten) == ECS && bytes12(w.nonce) && w.err == old(w.err) && w.dst == old(w.dst) && w.a == old(w.a)
+//@   modifies w.unwritten, w.buf, w.nonce, w.dst.$out
+
+//@ func (*Writer).Write(w, p) (n, err)
+//@   requires#inv winv(w) && disjoint(p, w.buf) && disjoint(p, w.nonce)
+//@   requires#chunks ctr(w.nonce) + (len(w.unwritten) + len(p)) / CS < MAXCTR                                        [C14]
+//@   loop 1 invariant winv(w) && w.err == nil && 0 <= len(p) && len(p) <= total && total == len(old(p)) && rg(p) == rg(old(p)) && off(p) + len(p) == off(old(p)) + len(old(p)) && w.dst == old(w.dst) && w.a == old(w.a)
+//@   loop 1 invariant#count old(len(w.unwritten)) + (total - len(p)) == CS * (ctr(w.nonce) - old(ctr(w.nonce))) + len(w.unwritten)       [C06 C12]
+//@   loop 1 invariant#shape ((total - len(p) > 0 && len(p) > 0) ==> len(w.unwritten) == 0) && ((total - len(p) > 0 && len(p) == 0) ==> len(w.unwritten) > 0)   [C12]
+//@   loop 1 invariant#chunks ctr(w.nonce) + (len(w.unwritten) + len(p)) / CS < MAXCTR                                 [C14]
+//@   loop 1 decreases 2 * len(p) + (len(w.unwritten) == CS ? 1 : 0)
+//@   ensures#inv winv(w)
+//@   ensures#full err == nil ==> n == len(p)                                                                          [C12 C13]
+//@   ensures#sticky old(w.err) != nil ==> n == 0 && err == old(w.err) && w.err == old(w.err) && w.dst.$out == old(w.dst.$out)   [C13]
+//@   ensures#stored err != nil ==> w.err == err && n == 0                                                             [C13]
+//@   ensures#live err == nil ==> w.err == nil                                                                         [C13]
+//@   ensures#empty (len(p) == 0 && old(w.err) == nil) ==> err == nil && w.dst.$out == old(w.dst.$out) && len(w.unwritten) == len(old(w.unwritten)) && ctr(w.nonce) == old(ctr(w.nonce))   [C12]
+//@   ensures#holdback (err == nil && len(p) > 0) ==> len(w.unwritten) > 0 && len(w.unwritten) <= CS                   [C12]
+//@   ensures#count (err == nil && len(p) > 0) ==> old(len(w.unwritten)) + len(p) == CS * (ctr(w.nonce) - old(ctr(w.nonce))) + len(w.unwritten)   [C06 C12]
+//@   modifies w.unwritten, w.buf, w.nonce, w.err, w.dst.$out
+
+//@ func (*Writer).Close(w) (err)
+//@   requires#inv winv(w)
+//@   requires#chunks ctr(w.nonce) < MAXCTR                                                                            [C14]
+//@   ensures#sticky old(w.err) != nil ==> err == old(w.err) && w.err == old(w.err) && w.dst.$out == old(w.dst.$out)   [C13]
+//@   ensures#closed w.err != nil                                                                                      [C06 C13]
+//@   ensures#final (old(w.err) == nil && err == nil) ==> w.dst.$out == cat(old(w.dst.$out), seal(w.a.$key, nonceOf(old(ctr(w.nonce)), 1), old(bytes(w.unwritten))))   [C01 C05 C12 C13]
+//@   ensures#flag old(w.err) == nil ==> w.nonce[11] == 1 && ctr(w.nonce) == old(ctr(w.nonce)) + 1                     [C02 C05 C06]
+//@   ensures#errret (old(w.err) == nil && err != nil) ==> w.err == err                                                [C13]
+//@   modifies w.unwritten, w.buf, w.nonce, w.err, w.dst.$out
